@@ -161,6 +161,28 @@ Proof.
     apply negb_true_iff in H2. exact H2.
 Qed.
 
+(* ---- a signal inside finalise: refuted for EVERY consistent state ------------------------------- *)
+Lemma nodupb_true_NoDup (l : list Z) : nodupb l = true -> NoDup l.
+Proof.
+  induction l as [|x l IH]; cbn [nodupb]; intros H; [constructor|].
+  apply andb_true_iff in H. destruct H as (H1 & H2). constructor; [|exact (IH H2)].
+  intro Hin. apply negb_true_iff in H1. apply not_true_iff_false in H1. apply H1.
+  apply existsb_exists. exists x. split; [exact Hin|apply Z.eqb_refl].
+Qed.
+
+Theorem finalise_refuted n s j :
+  Inv n s -> (1 <= j)%nat -> final_ok_b n (resume_finalise j s) = false.
+Proof.
+  intros I Hj. destruct (Inv_live_cons n s I) as (w & tl & Hl).
+  unfold final_ok_b. destruct (nodupb (map pid (dead (resume_finalise j s)))) eqn:E; [|reflexivity].
+  exfalso. apply nodupb_true_NoDup in E.
+  unfold resume_finalise, finalise, finalise_prefix in E. cbn [dead live] in E. rewrite Hl in E.
+  destruct j as [|j]; [lia|]. cbn [firstn] in E.
+  rewrite <- app_assoc in E. cbn [app] in E. rewrite !map_app in E. cbn [map] in E.
+  apply NoDup_remove_2 in E. apply E.
+  apply in_or_app. right. rewrite map_app. apply in_or_app. right. left. reflexivity.
+Qed.
+
 (* ---- the handler ------------------------------------------------------------------------------- *)
 Lemma heff_eqb_eq a b : heff_eqb a b = true -> a = b.
 Proof. destruct a, b; cbn; try discriminate; try reflexivity; intros H; apply eqb_prop in H; subst; reflexivity. Qed.
